@@ -6,7 +6,7 @@ import itertools
 
 from .. import gen, probe, spec
 from ..probe import violation
-from .common import call
+from .common import growth_sweep, long_lived, call
 
 PROP = "C01"
 LEVEL = "exploration"
@@ -113,6 +113,8 @@ def small_world_case(ctx, g):
 
 def run_case(ctx, g, rng):
     api = ctx.api
+    growth_sweep(ctx, rng, rng.choice([":", ":", "/"]), g)
+    long_lived(ctx, rng, rng.choice([":", "/"]), g)
     if g < n_small_chunks() and (ctx.tier == "thorough" or g % 8 == 0):
         small_world_case(ctx, g)
     d = rng.choice(gen.DELIMS)
